@@ -67,6 +67,18 @@ def main():
            "def SpeaksAll (T : Table) : Bool := vocabulary.all (fun (n, k) => T.any (fun d => d.name == n && d.kind == k))", "",
            "end Spec"]
     write_if_changed(os.path.join(VERIF, "lean", "SieveModel", "Spec", "Vocabulary.lean"), "\n".join(out) + "\n")
+    frozen_table()
+
+
+def frozen_table():
+    """Spec/FrozenTable.lean from spec/command_table.json (the command table of the supported language: a snapshot of the pinned tree,
+    reviewed against the RFCs the library implements; NOT regenerated from /repo)"""
+    import translate
+    t = json.load(open(os.path.join(VERIF, "spec", "command_table.json")))["table"]
+    out = ["import SieveModel.Model.Table",
+           "/-! FROZEN command table of the supported language (rendered from /verif/spec/command_table.json; NOT derived from /repo). -/",
+           "namespace Spec", "", "def frozenTable : Table := [", ",\n".join(translate.render_def(d) for d in t), "]", "", "end Spec"]
+    write_if_changed(os.path.join(VERIF, "lean", "SieveModel", "Spec", "FrozenTable.lean"), "\n".join(out) + "\n")
 
 
 def write_if_changed(path, txt):
